@@ -109,6 +109,10 @@ func (snt *ScrapligoNetconfTarget) EditConfig(target string, config string) (*ty
 	if err != nil {
 		return nil, err
 	}
+	// next to the warnings there may be an rpc-error the severity of which cannot be told: it fails the edit as well
+	if n := len(x.FindElements("//rpc-error")); n > len(resp.WarningErrorMessages) {
+		return nil, fmt.Errorf("edit-config reply carries %d rpc-error(s), %d of them warnings: %w", n, len(resp.WarningErrorMessages), resp.Failed)
+	}
 
 	// return the rpc result
 	return types.NewNetconfResponse(x), nil
